@@ -80,7 +80,8 @@ def case_from_json(j):
     return mk(ent, [tuple(t) for t in m["tuples"]], 0)
 
 CODE = {2: "panicked only AFTER writing to the receiver (storage modified before the panic)", 3: "returned, but a by-reference operand was modified",
-        4: "returned, but the owned and the borrowed form of the operation disagree"}
+        4: "returned, but the owned and the borrowed form of the operation disagree",
+        5: "the by-reference form panicked but the consuming (owned) form of the same operation accepted the operands and returned a value"}
 
 def oracle(case, items):
     m = case.meta
